@@ -1,7 +1,81 @@
+import ElvisVerif.Model.Frag
 import Driver.Common
-/-! Line-protocol handlers for C10 (sub-commands `c10` / `c10-*`). -/
-namespace Driver.C10
+/-! Line-protocol handlers for C10 (sub-commands `c10` / `c10-*`).
 
-def dispatch (_sub : String) (_i _o : IO.FS.Stream) : Option (IO Unit) := none
+```
+case <id>
+dgram <ihl> <tos> <tl> <ident> <fo> <flags> <ttl> <proto> <cksum> <src> <dst> <body>
+frag <mtu>
+```
+`<body>` is `h:<hex>` or `g:<seed>:<len>` (byte i = ((seed+i)·2654435761 / 65536) % 256).
+`dgram` makes the datagram the only current piece; `frag` runs `fragment` on every current piece
+(one hop), prints the `Fragments` value per piece and makes the travelling pieces current. -/
+namespace Driver.C10
+open Elvis.Frag
+
+def genBody (seed len : Nat) : List UInt8 :=
+  (List.range len).map fun i => UInt8.ofNat (((seed + i) * 2654435761 / 65536) % 256)
+
+def parseBody (s : String) : Option (List UInt8) :=
+  match s.splitOn ":" with
+  | ["h", hex] => Driver.parseHex hex
+  | ["g", seed, len] => do pure (genBody (← seed.toNat?) (← len.toNat?))
+  | _ => none
+
+/-- FNV-1a, 64 bit -/
+def fnv (b : List UInt8) : UInt64 :=
+  b.foldl (fun h x => (h ^^^ x.toUInt64) * 0x100000001b3) 0xcbf29ce484222325
+
+def digest (b : List UInt8) : String :=
+  if b.length ≤ 32 then s!"{b.length}:{Driver.toHex b}" else s!"{b.length}:#{(fnv b).toNat}"
+
+/-- long result lines (hundreds of pieces) are cut to head + length + FNV-64 of the whole + tail;
+    both sides apply the same rule -/
+def compress (s : String) : String :=
+  let cs := s.toList
+  if cs.length ≤ 1200 then s
+  else
+    let h := fnv (cs.map fun c => UInt8.ofNat c.toNat)
+    String.ofList (cs.take 500) ++ s!" ...[{cs.length}:#{h.toNat}]... " ++ String.ofList (cs.drop (cs.length - 300))
+
+def showHdr (h : Hdr) : String :=
+  s!"{h.ihl},{h.tos},{h.totalLength},{h.ident},{h.fragOffset},{h.flags},{h.ttl},{h.proto},{h.checksum},{h.src},{h.dst}"
+
+def showFrag (f : Frag) : String := "{" ++ showHdr f.1 ++ "|" ++ digest f.2 ++ "}"
+
+def showFragments : Except String Fragments → String
+  | .error e => "P:" ++ e
+  | .ok (.dontFragment f) => "D" ++ showFrag f
+  | .ok .discard => "X"
+  | .ok (.fragmented l) => "F[" ++ ",".intercalate (l.map showFrag) ++ "]"
+
+def parseHdr : List String → Option Hdr
+  | [ihl, tos, tl, ident, fo, flags, ttl, proto, ck, src, dst] => do
+    pure { ihl := ← ihl.toNat?, tos := ← tos.toNat?, totalLength := ← tl.toNat?, ident := ← ident.toNat?,
+           fragOffset := ← fo.toNat?, flags := ← flags.toNat?, ttl := ← ttl.toNat?, proto := ← proto.toNat?,
+           checksum := ← ck.toNat?, src := ← src.toNat?, dst := ← dst.toNat? }
+  | _ => none
+
+def step (cur : List Frag) (ws : List String) : List Frag × String :=
+  match ws with
+  | ["case", id] => ([], s!"case {id}")
+  | "dgram" :: rest =>
+    match rest.getLast?, parseHdr rest.dropLast with
+    | some b, some h =>
+      match parseBody b with
+      | some body => ([(h, body)], "ok " ++ digest body)
+      | none => (cur, "bad-op")
+    | _, _ => (cur, "bad-op")
+  | ["frag", m] =>
+    match m.toNat? with
+    | none => (cur, "bad-op")
+    | some mtu =>
+      let rs := cur.map fun f => fragment f.1 f.2 mtu
+      let next := rs.flatMap fun r => match r with | .ok v => v.pieces | .error _ => []
+      (next, compress (" ".intercalate (rs.map showFragments) ++ s!" n={next.length}"))
+  | _ => (cur, "bad-op")
+
+def dispatch (sub : String) (i o : IO.FS.Stream) : Option (IO Unit) :=
+  if sub == "c10" || sub.startsWith "c10-" then some (Driver.loop i o step []) else none
 
 end Driver.C10
